@@ -207,7 +207,9 @@ CLAIMED = {
        "log_prob on (mean[obs], cov[obs, obs]) at target[obs] -- the density of the data set with the missing observations deleted -- divides "
        "by the total number n of targets, and rejects 'fill' with ValueError; prediction: _mean_cache('mask') solves the training system with the missing "
        "rows AND columns masked out against (y - m) at the observed positions and stores NaN elsewhere, exact_predictive_mean under 'mask' is m* + the sum over "
-       "OBSERVED columns of K*x times the cache (mask re-derived from the cache), under 'fill' m* + the sum over the non-missing columns. Bounded tier (not counted): every NaN pattern on n = 4 (quick) / 5 "
+       "OBSERVED columns of K*x times the cache (mask re-derived from the cache), under 'fill' m* + the sum over the non-missing columns; _mean_cache('fill') (batch ranks 0, 1) solves, per batch element, the system with "
+       "that element's missing rows and columns zeroed off the diagonal against y - m with the missing entries filled, and marks that element's missing "
+       "entries (IEEE fact assumed: y - m is NaN exactly where y is). Bounded tier (not counted): every NaN pattern on n = 4 (quick) / 5 "
        "(thorough) single-output exact GPs, batched targets, 3 x 2 multitask interleaved and non-interleaved, both policies in both orders on the "
        "same model: posterior mean / covariance vs a model trained on the observed subset, n*MLL(mask) = n_obs*MLL(deleted), likelihood terms, finiteness.",
   design_ref="DESIGN.md section 5, C16",
